@@ -1080,6 +1080,13 @@ func ruleReadVerbatim(w *World, r *Run, rule string) {
 		}
 		ro := calls(s, cReadOps)
 		gl := calls(s, cGetLatest)
+		// `return read.GetLatest()`: both results of the store's read handed on as they are (success and failure alike)
+		if len(ro) == 1 && ro[0].Recv == lsp && len(ro[0].Args) == 1 && ro[0].Args[0] == logID && okBefore(s, ro[0], 0) &&
+			len(gl) == 1 && gl[0].Recv == res(ro[0], 0) && s.Rets[0] == res(gl[0], 0) && s.Rets[1] == errRes(gl[0]) {
+			nOK++
+			r.Pass(rule, fnGetCheckpoint+" | returns ReadOps(logID).GetLatest() unchanged", w.pos(s.RetPos), "")
+			continue
+		}
 		if s.Rets[1].Kind == "nil" {
 			good := len(ro) == 1 && ro[0].Recv == lsp && len(ro[0].Args) == 1 && ro[0].Args[0] == logID && okBefore(s, ro[0], 0) &&
 				len(gl) == 1 && gl[0].Recv == res(ro[0], 0) && okBefore(s, gl[0], 0) && s.Rets[0] == res(gl[0], 0)
